@@ -1,4 +1,5 @@
 import AmrK.Grid
+import AmrK.F32Order
 import AmrK.Basic
 import AmrK.WritePerm
 /-! # C10 — whip's uniform grid is the covering grid of the chosen field -/
@@ -28,5 +29,17 @@ theorem completion_order_independent (a : Nat → Option Nat) (w1 w2 : (Nat → 
 theorem any_arrival_order {l l' : List ((Nat → Bool) × Nat)} (p : l.Perm l') (h : Probe.PairwiseDisjoint l)
     (a : Nat → Option Nat) : l.foldl Probe.write a = l'.foldl Probe.write a :=
   Probe.foldl_write_perm p h a
+
+/-- **converted to the requested data type**: the driver decides for the saved single-precision values (`F32.castOK`: exact value
+    of the double's bit pattern, exact values of the single's pattern and of its two neighbours - infinity standing for `2^128` -,
+    ties to even, NaN and the infinities kept) that each is the correctly rounded double.  Soundness of the neighbour test: an
+    accepted pattern is at least as close to the double's value as every single-precision magnitude. -/
+theorem cast_is_correctly_rounded (q : Rat) (v : Nat) (h : F32.nearestC q v = true) :
+    v ≤ F32.infBits ∧ ∀ u, u ≤ F32.infBits → |F32.magC v - q| ≤ |F32.magC u - q| :=
+  F32.nearestC_sound q v h
+
+example : F32.castOK 0x3FB999999999999A 0x3DCCCCCD = true ∧ F32.castOK 0x3FB999999999999A 0x3DCCCCCC = false ∧
+    F32.castOK 0x47EFFFFFF0000000 0x7F800000 = true ∧ F32.castOK 0x4197D78404000000 0x4CBEBC20 = true ∧
+    F32.castOK 0x7FF8000000000000 0x7FC00000 = true ∧ F32.castOK 0x3690000000000000 0 = true := by decide +kernel
 
 end C10
